@@ -42,7 +42,8 @@ CLAIMED = {
         note="polytri is an oracle (triangles mapped to indices, count and closedness checked); face planarity/convexity/orientation are the documented precondition; "
              "known finding polytri-absolute-thresholds (valid small meshes raise)."),
     "C05": dict(
-        text="Theorems: the normalised plane test has the sign of the exact side value and is membership in the face half-spaces (convex); the norm "
+        text="Convex spheropolyhedra (Thm/SpheroThm, SpheroComplete, SpheroTransfer): an exact square-root-free model of the algorithm (core / extruded faces / edge cylinders / vertex spheres) is run against the implementation and the exact distance; proved for every face list passing the exact certificate sphero_certb (planar strictly convex ccw faces, every edge covered by a neighbour - decided in Q on the implementation's own faces every run): every point within r of the core is accepted, and only points in the core or within r of a face point are; the edge test is exactly 'within r of the segment'. "
+             "Theorems: the normalised plane test has the sign of the exact side value and is membership in the face half-spaces (convex); the norm "
              "tests of Sphere/Ellipsoid are the quadratic membership tests; the 3-D winding rule (tie-breaking included) is independent of triangle order and of each triangle's starting vertex, "
              "reversing all orientations negates the chain sum, and in generic position the chain sum of ANY triangle list is the signed number of "
              "piercings of the surface by the line through the point parallel to z (ray casting; built on the C06 triangle theorem) (partial: "
@@ -66,7 +67,8 @@ CLAIMED = {
         note="points ON a fan chord are outside the main theorem's hypothesis (the fan indicator is then evaluated by the exact crossing-parity oracle per point); that "
              "the signed fan indicator is the point-set indicator of a simple polygon is the same modelled step as in C04; known finding ellipse-box-test."),
     "C10": dict(
-        text="Translator tie: the scalar closed forms of Circle/Ellipse/Sphere/Ellipsoid are regenerated from /repo into Gen/Scalars.v on every run and the "
+        text="New: the ellipse isoperimetric inequality P >= pi(a+b), hence 4 pi A / P^2 <= 1 for all semi-axes (the min(.,1) clamp of the source is never active) and iq = 1 iff a = b. "
+             "Translator tie: the scalar closed forms of Circle/Ellipse/Sphere/Ellipsoid are regenerated from /repo into Gen/Scalars.v on every run and the "
              "theorems are re-checked against them: area and volume formulas equal the defining polar/spherical iterated Riemann integrals (Coquelicot), "
              "the ellipse perimeter 4aE(e^2) equals 4 x the arc-length integral of the quarter ellipse, central inertia entries, eccentricity and axis symmetry, iq <= 1; the off-centre planar moments are proved to be exactly the swapped "
              "parallel-axis model (refuted against the integrals of y^2, x^2 with a witness; partial for cx^2=cy^2; polar moment proved right). "
@@ -102,7 +104,8 @@ CLAIMED = {
         design="§4 C13", technique="Coq proof (linear-algebra equivalences, weighted-sum argument, nra) + exact existence oracle + definition checks on implementation output",
         note="miniball and lstsq are oracles; in-ball existence known by construction of generators; sizes O(1) (scale dependence of isclose(resids,0) is C09)."),
     "C14": dict(
-        text="Theorems: for every real theta the Ellipse formula (regenerated from the source each run) puts centre + d(cos,sin) on the ellipse with d>0; "
+        text="New: the three branch formulas of ConvexPolygon._distance_to_surface_from (vertical / horizontal / generic edge through tan) are modelled (Model/DistanceBranches.v), proved to return the ray parameter of the hit point, and run float-extracted against the implementation. "
+             "Theorems: for every real theta the Ellipse formula (regenerated from the source each run) puts centre + d(cos,sin) on the ellipse with d>0; "
              "Cramer's rule for ray/edge intersection (the point at distance cross(a,e)/cross(u,e) along u is a + s e); distance = |d u| for unit u; "
              "directions depend on theta only modulo 2 pi; for a convex region with ANY number of edges (half-planes with the centre inside) the radial distance "
              "min c_i/(n_i.u) keeps the whole ray segment inside, lands on an edge line, is positive and exists; the rounded-corner hit u.v + sqrt(r^2-(u x v)^2) "
@@ -163,7 +166,8 @@ CLAIMED = {
         design="§4 C19", technique="Coq proof on a datatype model of the codec + executable dispatch model run against the implementation + round-trip correspondence",
         note="repr, to_json and to_hoomd are decided by correspondence only (partial); known finding spheropolygon-to_hoomd-not-centred (pinned by the suite)."),
     "C20": dict(
-        text="Codec theorems on token lines (coordinates opaque): parse(write m) = Some m for every well-formed mesh (any number of vertices/faces) for OBJ "
+        text="New: the STL grammar - the parser recovers, in order, the fan triangles of every face (C20_stl_roundtrip) and is run on the implementation's STL files. "
+             "Codec theorems on token lines (coordinates opaque): parse(write m) = Some m for every well-formed mesh (any number of vertices/faces) for OBJ "
              "(1-based), OFF, PLY, VTK (counts must match the data, indices in range) and the X3D/HTML coordIndex run structure; the OFF count line as "
              "actually written ('<V> f<F> <E>') is proved unparseable (known finding, byte-pinned by the control files). Correspondence: the Coq parsers "
              "are run on the bytes Polyhedron.save wrote (lexed in the harness), and must return the polyhedron's vertex count and face cycles; float tokens "
@@ -194,7 +198,8 @@ CLAIMED = {
         design="§4 C18", technique="data-to-Coq translation + finite-domain proofs by vm_compute + exhaustive correspondence",
         note="reference (V,E,F) table hand-written; geometric facts need the hull and are decided by the exhaustive correspondence (1e-6); known finding science-J86-edge-precision."),
     "C12": dict(
-        text="PARTIAL. Theorems for the code's polygon line-integral formula: for a triangle in the xy-plane and an in-plane q in generic position the formula "
+        text="Polyhedra: for every closed oriented triangulated surface with unit face normals (any planes) the face sum of Polyhedron.compute_form_factor_amplitude equals the sum over the signed cones (o,a,b,c) of det x the Fourier triple integral (Coquelicot), any apex, q generic for the cones (3-D face lemma, Gauss theorem for the plane wave on a tetrahedron, closed-chain cancellation); polygons of any size on ANY plane and EVERY wave vector with non-zero projection equal the fan of Fourier integrals (degenerate directions proved); the sphere's value expressions are regenerated from the source and equal the Fourier integral of the ball. Tie: the hand-written real-number formulas are run float-extracted (Extract/ExtractR.v) against the implementation to 1e-8. "
+             "PARTIAL. Theorems for the code's polygon line-integral formula: for a triangle in the xy-plane and an in-plane q in generic position the formula "
              "EQUALS the Fourier integral J*intint exp(-i q.r) over the affinely parametrised triangle (Coquelicot double RInt, real and imaginary parts), "
              "and for xy-plane polygons of ANY size it equals the sum of those integrals over the fan triangles (generic q); "
              "every vertex cycle: each edge term IS -i((e x q).n/q^2) times the plane wave "
